@@ -324,6 +324,13 @@ ActTamperR1(out, h, what, k, d) ==
   /\ Finish("tamper_r1", [ok |-> TRUE], (out :> TamperedR1(env[h], what, k, d)),
             [op |-> "tamper_r1", out |-> out, src |-> h, what |-> what, k |-> k, d |-> d])
 
+\* adversary: sender's commitment with the proof of knowledge of another package
+ActGraftProof(out, ch, ph) ==
+  /\ Has(ch) /\ Has(ph)
+  /\ ro' = ro
+  /\ Finish("graft_proof", [ok |-> TRUE], (out :> [env[ch] EXCEPT !.R = env[ph].R, !.mu = env[ph].mu]),
+            [op |-> "graft_proof", out |-> out, commit_of |-> ch, proof_of |-> ph])
+
 ActTamperR2(out, h, d) ==
   /\ Has(h)
   /\ ro' = ro
@@ -575,7 +582,7 @@ Encodable(o) ==
     [] o.ty \in {"non", "comm"} -> ~IsIdent(o.D) /\ ~IsIdent(o.E)
     [] o.ty = "pkg"  -> ~ListHasIdent(o.comms)
     [] o.ty = "sig"  -> ~IsIdent(o.R)
-    [] OTHER -> TRUE
+    [] OTHER -> TRUE          \* scalars (shares, repair values, signature shares) are always encodable
 
 ActReload(h, form) ==
   /\ Has(h)
